@@ -86,6 +86,17 @@ CLAIMED["C09"] = dict(
         "of constructed types (combine suite); type identity is modelled by structural equality of the declaration trees. "
         "'decided' hypotheses exclude arguments whose verdict is outside the model (Unmodelled) or a DepthExceedError at entry.",
    technique="Coq proofs on the logical_parse model (loop invariants, permutation argument) + correspondence and per-argument oracle", design="§8 C09")
+CLAIMED["C11"] = dict(
+   text="Machine-checked proof (Coq): for sequences of any length (list, set, variable-length tuple) parsing under 'exclude' equals "
+        "parsing under 'throw' the input with exactly the offending elements removed (C11_exclude_is_filter), 'preserve' returns the "
+        "elements converted or put back unchanged position by position; mappings: under exclude/preserve for keys and values the "
+        "result is exactly the fold of per-pair contributions (an offending key/value affects only its own pair); fields: a "
+        "required field is never silently excluded, an optional one takes its default / stays absent, preserve keeps the input, "
+        "a good value is unaffected by the policy.",
+   note="Trusted: as C01. C11_exclude_is_filter assumes element conversions independent of the policy (element types without "
+        "offending sub-elements); *args and typed `addition` are outside the model and covered only where the policies suite "
+        "reaches them; fixed-length tuples have no exclude policy in utype.",
+   technique="Coq proofs by induction over the element loops of the parse model + correspondence and per-element oracle", design="§8 C11")
 NOT_YET = {}
 for i in range(1, 21):
     pid = "C%02d" % i
